@@ -23,7 +23,9 @@
 //!     microseconds since the epoch as unsigned hex, or 'n' = before the epoch.  Every returned value must be
 //!     exactly compute_next(previous value, reading).  profile 0: small steps, repeats, backward steps,
 //!     pre-epoch; 1: also jumps of minutes/years (with warn = 1 this exercises the clock-skew warning branch);
-//!     2 (warn = 0 only): readings beyond i64::MAX microseconds (`as i64` wraps).
+//!     2: readings beyond i64::MAX microseconds (`as i64` wraps; with a warning configuration the i64
+//!     subtraction `last - u_cur` of the warning branch then overflows: the call panics under overflow checks,
+//!     reported as "<reading>:panic").
 //!   B <serial> <warn 0|1> <calls> <pace>
 //!       | t0,v,t1,t0,v,t1,...
 //!     single thread; the harness reads the same clock (SystemTime, microseconds) just before
@@ -174,18 +176,23 @@ fn run_c(warn: u64, calls: usize, profile: u64, seed: u64) -> String {
     SCRIPT_PTR.store(readings.as_mut_ptr(), Ordering::SeqCst);
     CLOCK_READS.store(0, Ordering::SeqCst);
     CLOCK_MODE.store(1, Ordering::SeqCst);
-    let mut vals = Vec::with_capacity(calls);
-    let res = catch(std::panic::AssertUnwindSafe(|| {
-        for _ in 0..calls {
-            vals.push(generator.next_timestamp());
+    // a call may panic (arithmetic overflow in the warning branch under overflow checks): it is recorded as
+    // "<reading>:panic" and the script goes on with the next reading (the atomic is untouched by such a call)
+    let mut vals: Vec<Option<i64>> = Vec::with_capacity(calls);
+    let prev_hook = std::panic::take_hook();
+    std::panic::set_hook(Box::new(|_| {}));
+    for _ in 0..calls {
+        let g = &generator;
+        let r = catch(std::panic::AssertUnwindSafe(|| g.next_timestamp()));
+        if let (Err(msg), true) = (&r, std::env::var_os("C18_SHOW_PANIC").is_some()) {
+            eprintln!("next_timestamp panicked: {}", msg);
         }
-    }));
+        vals.push(r.ok());
+    }
+    std::panic::set_hook(prev_hook);
     CLOCK_MODE.store(0, Ordering::SeqCst);
     let reads = CLOCK_READS.load(Ordering::SeqCst);
     SCRIPT_PTR.store(std::ptr::null_mut(), Ordering::SeqCst);
-    if res.is_err() {
-        return format!("panic after {} calls", vals.len());
-    }
     if reads != calls as u64 {
         return format!("error clock was read {} times for {} calls", reads, calls);
     }
@@ -194,7 +201,10 @@ fn run_c(warn: u64, calls: usize, profile: u64, seed: u64) -> String {
         .zip(&vals)
         .map(|((sec, nsec), v)| {
             let rd = if *sec < 0 { "n".to_string() } else { format!("{:x}", *sec as u128 * 1_000_000 + (*nsec as u128) / 1000) };
-            format!("{}:{}", rd, hex_i(*v as i128))
+            match v {
+                Some(v) => format!("{}:{}", rd, hex_i(*v as i128)),
+                None => format!("{}:panic", rd),
+            }
         })
         .collect();
     if toks.is_empty() { "-".into() } else { toks.join(",") }
@@ -591,7 +601,7 @@ fn run_case(case: &str) -> String {
         }
         "C" if f.len() == 5 => {
             let (serial, warn, calls, profile) = (h(f[1]), h(f[2]), h(f[3]) as usize, h(f[4]));
-            if calls == 0 || calls > 4_000_000 || (profile >= 2 && warn != 0) {
+            if calls == 0 || calls > 4_000_000 {
                 return "error bad-parameters".into();
             }
             run_c(warn, calls, profile, serial)
@@ -669,7 +679,7 @@ fn main() {
         }
     }
     // scripted clock, single thread, exact: every profile with every admissible warning configuration
-    for (warn, profile) in [(0u64, 0u64), (1, 0), (2, 0), (0, 1), (1, 1), (2, 1), (0, 2)] {
+    for (warn, profile) in [(0u64, 0u64), (1, 0), (2, 0), (0, 1), (1, 1), (2, 1), (0, 2), (1, 2), (2, 2)] {
         serial += 1;
         emit(&mut out, format!("C {:x} {:x} {:x} {:x}", serial, warn, 20_000, profile));
         budget -= 20_000;
@@ -686,7 +696,7 @@ fn main() {
         serial += 1;
         if r.chance(1, 8) {
             let profile = r.below(3);
-            let warn = if profile == 2 { 0 } else { r.below(3) };
+            let warn = r.below(3);
             let calls = r.range(2_000, 40_000);
             emit(&mut out, format!("C {:x} {:x} {:x} {:x}", serial, warn, calls, profile));
             budget -= calls as i64;
